@@ -41,6 +41,21 @@ type Result struct {
 	YieldParks  uint64            `json:"yield_parks,omitempty"`
 	GateParks   uint64            `json:"gate_parks,omitempty"`
 	Panic       string            `json:"panic,omitempty"`
+	Enum        bool              `json:"enum,omitempty"`
+	EnumPos     int               `json:"enum_pos,omitempty"`
+	EnumVariant int               `json:"enum_variant,omitempty"`
+	EnumCount   int               `json:"enum_count,omitempty"`
+	EnumKinds   []string          `json:"enum_kinds,omitempty"`
+	Last        bool              `json:"last"`
+}
+
+// ExecOpts selects how a run is executed.
+type ExecOpts struct {
+	Tapes       map[string][]uint32
+	Keep        bool
+	Enum        bool
+	EnumPos     int // -1 = reference execution (count only)
+	EnumVariant int
 }
 
 // ReplayFile is what a violation is written as and replayed from.
@@ -53,6 +68,9 @@ type ReplayFile struct {
 	Tapes     map[string][]uint32 `json:"tapes"`
 	Original  map[string][]uint32 `json:"original_tapes,omitempty"`
 	Minimised bool                `json:"minimised"`
+	Enum        bool              `json:"enum,omitempty"`
+	EnumPos     int               `json:"enum_pos,omitempty"`
+	EnumVariant int               `json:"enum_variant,omitempty"`
 	RepoTree  string              `json:"repo_tree,omitempty"`
 	Workload  any                 `json:"workload,omitempty"`
 	Trace     []string            `json:"trace,omitempty"`
@@ -95,7 +113,8 @@ func stdioNew() string {
 }
 
 // execute runs one simulated execution inside the (already open) bubble.
-func execute(seed int64, scenario string, tapes map[string][]uint32, keepTrace bool) (res *Result) {
+func execute(seed int64, scenario string, o ExecOpts) (res *Result) {
+	tapes, keepTrace := o.Tapes, o.Keep
 	var w, s, f *Tape
 	if tapes != nil {
 		w, s, f = NewReplayTape(tapes["w"]), NewReplayTape(tapes["s"]), NewReplayTape(tapes["f"])
@@ -104,14 +123,37 @@ func execute(seed int64, scenario string, tapes map[string][]uint32, keepTrace b
 	}
 	r := NewRun(seed, scenario, w, s, f)
 	r.Keep = keepTrace
-	res = &Result{Seed: seed, Scenario: scenario}
+	r.EnumOn, r.EnumPos, r.EnumVariant = o.Enum, o.EnumPos, o.EnumVariant
+	res = &Result{Seed: seed, Scenario: scenario, Last: true, Enum: o.Enum, EnumPos: o.EnumPos, EnumVariant: o.EnumVariant}
 
+	// Two collections empty every sync.Pool (primary and victim caches), so the engine's codec
+	// and scan-buffer pools start each run in the same state whatever ran before in this
+	// process; no collection happens during the run.
+	runtime.GC()
 	runtime.GC()
 	debug.SetGCPercent(-1)
 	defer debug.SetGCPercent(100)
 
 	simrt.BeginRun()
 	simrt.YieldEnabled = nil
+	simrt.OnPanic = func(actor string, v any, stack []byte) {
+		// "*" = counts against whichever property the scenario is being run for: the library
+		// crashed the process it is embedded in.
+		st := string(stack)
+		if len(st) > 3000 {
+			st = st[:3000]
+		}
+		where := "library"
+		if !strings.Contains(st, "github.com/danthegoodman1/bloomsearch.") {
+			where = "harness"
+		}
+		if where == "library" {
+			r.Violate("*", "engine-panic", "goroutine %s panicked: %v\n%s", actor, v, st)
+		} else {
+			res.Panic = fmt.Sprintf("harness goroutine %s panicked: %v\n%s", actor, v, st)
+		}
+		r.Fatal = true
+	}
 	simos.Current = simos.NewFS()
 	simrt.SimSeed = uint64(seed)*2654435761 + 0x9e3779b97f4a7c15 | 1
 	simrt.SimRand = uint64(seed)*40503 + 0x632be59bd9b4e019 | 1
@@ -154,6 +196,10 @@ func execute(seed int64, scenario string, tapes map[string][]uint32, keepTrace b
 	res.Violations = r.Viol
 	res.Budget = r.Budget
 	res.Dirty = r.Dirty
+	res.EnumCount = r.EnumCount
+	if o.Enum && o.EnumPos < 0 {
+		res.EnumKinds = r.EnumKinds
+	}
 	res.YieldParks = simrt.YieldParks
 	res.GateParks = simrt.GateParks
 	if len(r.Viol) > 0 || keepTrace || res.Panic != "" {
@@ -210,7 +256,7 @@ func TestSim(t *testing.T) {
 		}()
 		synctest.Test(t, func(t *testing.T) {
 			// Warm-up run, discarded (one-time lazy initialisation happens here).
-			execute(424242, warmupScenario(scenario), nil, false)
+			execute(424242, warmupScenario(scenario), ExecOpts{})
 			switch {
 			case os.Getenv("SIM_REPLAY") != "":
 				var rf ReplayFile
@@ -225,7 +271,7 @@ func TestSim(t *testing.T) {
 					exitCode = 2
 					return
 				}
-				res := execute(rf.Seed, rf.Scenario, rf.Tapes, true)
+				res := execute(rf.Seed, rf.Scenario, ExecOpts{Tapes: rf.Tapes, Keep: true, Enum: rf.Enum, EnumPos: rf.EnumPos, EnumVariant: rf.EnumVariant})
 				emit(res)
 			case os.Getenv("SIM_SHRINK") != "":
 				exitCode = shrinkMain(os.Getenv("SIM_SHRINK"), emit)
@@ -241,8 +287,12 @@ func TestSim(t *testing.T) {
 					stride, _ = strconv.ParseInt(v, 10, 64)
 				}
 				keep := os.Getenv("SIM_KEEP_TRACE") != ""
+				if os.Getenv("SIM_ENUM") != "" {
+					exitCode = enumSeeds(scenario, start, count, emit)
+					return
+				}
 				for i := int64(0); i < count; i++ {
-					res := execute(start+i*stride, scenario, nil, keep)
+					res := execute(start+i*stride, scenario, ExecOpts{Keep: keep})
 					emit(res)
 					if res.Dirty || res.Panic != "" {
 						// Leftover goroutines would perturb the next run: stop here, the driver
@@ -257,6 +307,75 @@ func TestSim(t *testing.T) {
 	bw.Flush()
 	out.Close()
 	os.Exit(exitCode)
+}
+
+// enumSeeds runs, for every seed, a fault-free reference execution followed by one execution per
+// enumerated seam call position (and fault variant). SIM_ENUM_RESUME="pos:variant" skips the
+// positions of the first seed that an earlier process already covered.
+func enumSeeds(scenario string, start, count int64, emit func(any)) int {
+	maxPos := 600
+	if v := os.Getenv("SIM_ENUM_MAX"); v != "" {
+		maxPos, _ = strconv.Atoi(v)
+	}
+	resumePos, resumeVar, resuming := -2, 0, false
+	if v := os.Getenv("SIM_ENUM_RESUME"); v != "" {
+		a, b, _ := strings.Cut(v, ":")
+		resumePos, _ = strconv.Atoi(a)
+		resumeVar, _ = strconv.Atoi(b)
+		resuming = true
+	}
+	for i := int64(0); i < count; i++ {
+		seed := start + i
+		ref := execute(seed, scenario, ExecOpts{Enum: true, EnumPos: -1})
+		n := ref.EnumCount
+		ref.Last = n == 0 || ref.Dirty || ref.Panic != "" || ref.Budget
+		skipping := resuming && i == 0
+		if !skipping || ref.Last {
+			emit(ref)
+		}
+		if ref.Dirty || ref.Panic != "" {
+			return 3 // this seed is abandoned (Last is set); a fresh process continues with the next
+		}
+		if ref.Last {
+			continue
+		}
+		step := 1
+		if n > maxPos {
+			step = (n + maxPos - 1) / maxPos
+		}
+		type pv struct{ pos, variant int }
+		var plan []pv
+		for pos := 0; pos < n; pos += step {
+			plan = append(plan, pv{pos, 0})
+			if pos < len(ref.EnumKinds) {
+				switch ref.EnumKinds[pos] {
+				case "ds.write", "ds.read", "ds.wclose", "os.write", "os.rename", "os.fsyncdir":
+					plan = append(plan, pv{pos, 1})
+				}
+			}
+		}
+		for k, e := range plan {
+			if skipping {
+				if e.pos == resumePos && e.variant == resumeVar {
+					skipping = false
+				} else if resumePos == -1 {
+					skipping = false
+				} else {
+					continue
+				}
+				if resumePos != -1 {
+					continue
+				}
+			}
+			res := execute(seed, scenario, ExecOpts{Enum: true, EnumPos: e.pos, EnumVariant: e.variant})
+			res.Last = k == len(plan)-1
+			emit(res)
+			if res.Dirty || res.Panic != "" {
+				return 3
+			}
+		}
+	}
+	return 0
 }
 
 func warmupScenario(s string) string {
